@@ -274,6 +274,12 @@ def gen_program(rng, stream):
         if view_key(sib) not in seen and not any(pred_kinds(v) == pred_kinds(sib) for v in evs):
             seen.add(view_key(sib))
             views.append(sib)
+    if chance(0.15):
+        # the 'this one for POST, that one for everything else' split: two views of one slot whose predicate VALUES differ
+        # only by a not_() wrapper (method '!POST' = request_method=not_('POST')); they never hold together, and their
+        # discriminators (phash) must differ
+        m = rng.choice(['POST', 'GET'])
+        views += [dict(k='view', name='n', method=m), dict(k='view', name='n', method='!' + m)]
     if has_wrapper and chance(0.9):
         views.append(dict(k='view', name='wr', ret='wrap'))      # (sometimes missing: ValueError at request time, in every variant)
     if stream == 'tie' and views:
@@ -372,6 +378,8 @@ def probes_for(rng, S, rootprefix=None):
             paths.append('/boom')
         if st['k'] == 'view' and st.get('name') == 'api':
             paths.append('/api')
+        if st['k'] == 'view' and st.get('name') == 'n':
+            paths.append('/n')
     paths = sorted(set(paths))
     queries = ['', 'a=1', 'b=1', 'a=1&b=1&vp=*&vq=*&rp=1', 'vp=1&vq=1', 'vp=2&rp=1']
     has_store = any(st['k'] == 'csrfstore' for st in S)
